@@ -107,6 +107,20 @@ def contentRuns (s : Stream) : Nat → List (Stream × Nat) → List (Nat × Nat
   | i0, (s', n) :: rest =>
     if s' = s ∧ 0 < n then (i0 % 26, n) :: contentRuns s (i0 + 1) rest else contentRuns s (i0 + 1) rest
 
+/-- Why a command can or cannot be started (`exec.Cmd.Start`): the classes the tie materialises. -/
+inductive StartClass where
+  | startable            -- an executable file, a usable working directory
+  | emptyArgv            -- no command at all
+  | notFound             -- bare name that is not on PATH / path that does not exist
+  | notExecutable        -- existing file without execute permission
+  | isDirectory          -- the "command" is a directory
+  | badRunDir            -- the working directory does not exist (or is not a directory)
+  deriving Repr, DecidableEq
+
+/-- `RunCommand` reports an ERROR (and no result map) exactly when the command cannot be started;
+    a command that was started always yields a result, whatever its exit status -/
+def runCommandErrors (c : StartClass) : Bool := c != .startable
+
 /-- `waitErrToExitCode`: nil ↦ 0, exit status n ↦ n, killed by a signal or anything else ↦ -1 -/
 inductive WaitResult where
   | success | exit (n : Nat) | signaled | other
